@@ -140,6 +140,7 @@ def unit_scaling_backend(
 
         # Go through and mark nodes which represent residual-adds
         residual_layer_number = 1
+        regular_adds = []
         for node in graph.nodes:
             if _is_add(node):
                 is_residual_add = False
@@ -157,13 +158,17 @@ def unit_scaling_backend(
                             skip_node, residual_node = (l, r) if l in r_deps else (r, l)
                             is_sa = _is_self_attention(skip_node, residual_node)
                             node.meta["residual_add"]["is_self_attention"] = is_sa
-                # Regular adds are not picked up by the unit scaling sweep above as
-                # the inbuilt + operation is handled differently when traced. It is
-                # instead substituted for its unit scaled equivalent here.
                 if not is_residual_add:
-                    logger.info("unit scaling function: %s", node)
-                    args = (*node.args, None)  # None denotes unconstrained
-                    replace_node_with_function(graph, node, U.add, args=args)
+                    regular_adds.append(node)
+
+        # Regular adds are not picked up by the unit scaling sweep above as
+        # the inbuilt + operation is handled differently when traced. It is
+        # instead substituted for its unit scaled equivalent here (once all adds
+        # have been analysed, as replacing nodes invalidates the dependency metadata).
+        for node in regular_adds:
+            logger.info("unit scaling function: %s", node)
+            args = (*node.args, None)  # None denotes unconstrained
+            replace_node_with_function(graph, node, U.add, args=args)
 
         # Replace nodes marked as residual-adds with unit scaled equivalent
         for node in graph.nodes:
